@@ -16,8 +16,12 @@ vars == <<cfg, sc, s>>
 (* the base configurations (DNS name, system trust store) in full; the other addressing / trust-store combinations for the
    dialled connection only *)
 Base(c) == c.host = "name" /\ c.store = "system" /\ c.via # "unix"
+(* a URL without a host has no port either: it only makes sense over a pre-connected stream *)
 XCfgs == {c \in [mode : XModes, verify : XVerify, connector : XConnectors, timeout : XTimeouts, via : XVias, host : XHosts, store : XStores] :
-            Base(c) \/ c.via = "dial" \/ (c.via = "unix" /\ c.host = "name" /\ c.store = "system")}
+            \/ Base(c)
+            \/ c.via = "dial" /\ c.host # "absent"
+            \/ c.via = "unix" /\ c.host = "name" /\ c.store = "system"
+            \/ c.host = "absent" /\ c.via \in {"stream-last", "stream-first"} /\ c.store = "system"}
 XScripts(c) == {x \in Scripts :
                   /\ ScriptFor(c, x)
                   /\ x.resp \in XResps \cup {"na"} /\ x.inj \in XInjs /\ x.hs \in XHss
